@@ -34,7 +34,8 @@ CLAIMS = {
               "assignment, a program the real checker accepts may fail only where Sem!Eval fails, a successful result must "
               "be assignable to the type the real checker reports, and be exactly bool/int64/float64 under the result "
               "directives. Rejection: MC_Err.tla injects each of 28 single violations of a typing rule at every leaf of "
-              "every expression of three families; the real Compile must reject all. Known deviations are attributed by "
+              "every expression of three families, and violations by the element type of the enclosing closure at every "
+              "leaf inside nested closures over other element types; the real Compile must reject all. Known deviations are attributed by "
               "specification-computed tags or by the named deviation of the semantics.",
               "DESIGN.md section 6 C03", "TLA+ typing rules + reference semantics; TLC-enumerated typed programs run for real; TLA+ fault injection compiled for real"),
     "C04": _c("exploration",
@@ -51,13 +52,15 @@ CLAIMS = {
               "that the specified compiler's program is well-formed, never underflows and exits clean, also with a small "
               "operand range where jump offsets overflow (must be rejected). Bound to the code three ways: real bytes vs "
               "specified bytes (drift diagnostic), real runs traced through the verif hook and validated step by step by "
-              "TLC against VM!Step with WellFormed evaluated on the real bytes, and the overflowing shapes inflated to "
-              "real size and compiled/run for real.",
+              "TLC against VM!Step with WellFormed evaluated on the real bytes (of every program of four corpora, traced or "
+              "not), and the overflowing shapes inflated to real size and compiled/run for real.",
               "DESIGN.md section 6 C05", "TLA+ machine model; TLC invariants; trace validation of hooked real runs; small-scope shapes inflated"),
     "C06": _c("model_checking",
               "Sem!Eval carries the allocation counter; TLC checks BudgetBounds and Conforms on the machine model and emits, "
               "for every allocating expression x assignment x budget 1..7, whether the reference refuses the run; the real "
-              "VM with vm.MemoryBudget set must refuse exactly those runs.",
+              "VM with vm.MemoryBudget set must refuse exactly those runs. Optimized programs are run too, with the bound "
+              "itself as the oracle: the collection elements reachable from a successful result whose storage is neither a "
+              "constant of the program nor part of the environment may not exceed the budget.",
               "DESIGN.md section 6 C06", "TLA+ allocation accounting; TLC cases x budgets replayed into the real VM"),
     "C07": _c("model_checking",
               "History.tla: the state is a history of runs on one reusable machine; TLC checks FreshEquiv and "
@@ -137,14 +140,19 @@ CLAIMS = {
               "every declaration order, checks ShadowingIsShallowest, and emits for each shape and name what the rule "
               "says. The shapes are written out as Go types, built against /repo and populated; the rule is first "
               "compared with Go's own resolution (reflect) on every name, then the real checker's verdict, the real "
-              "run-time lookup and the generated documentation are compared with each other and with the rule.",
+              "run-time lookup, the value a call returns (a method and a function-valued field of the same name return "
+              "different values) and the generated documentation are compared with each other and with the rule.",
               "DESIGN.md section 6 C16", "TLA+ selector rule; TLC-enumerated struct shapes generated as Go types; checker, VM and docgen compared on each"),
     "C17": _c("model_checking",
               "Types!Overload states which occurrences of `+` become the call Add(l, r) (both operands statically int, by "
               "Types!TypeOf, which TLC checks against the generator's typing in every state); for every TLC-enumerated "
               "expression x assignment the real library compiled with Operator(+, Add) must reproduce value, failure and "
               "the call log of the rewritten tree - so each overloaded occurrence calls Add once with its operands in order "
-              "wherever it sits, and every other occurrence keeps its built-in meaning; ill-shaped mappings must be rejected.",
+              "wherever it sits, and every other occurrence keeps its built-in meaning. OpTable.tla models the operator "
+              "table as a machine (one Operator entry appended per step) with Valid and Resolve (first fitting entry in "
+              "order); TLC checks Monotone and Stable and emits every table up to the entry bound: an invalid table must be "
+              "rejected by the real Compile wherever the bad entry sits, a valid one must send each occurrence to the "
+              "function Resolve designates (call log, value).",
               "DESIGN.md section 6 C17", "TLA+ overload rewrite; TLC-enumerated cases replayed with a real operator mapping"),
     "C18": _c("model_checking",
               "The identities are stated in TLA+ (LawPairs) over the reference semantics and checked by TLC in every state "
